@@ -1,11 +1,1236 @@
-//! C16 — not built yet (see DESIGN.md §5 C16).
+//! C16 — query results do not depend on the index storage backend (DESIGN §5 C16).
+//!
+//! Twin execution: every history of the alphabet (DML on an indexed table, CREATE/DROP INDEX at any
+//! position) is executed from scratch on `Database::new()` (user indexes in memory) and on
+//! `Database::with_path_and_config(private dir, tiny memory budget, SpillToDisk | BestEffort)` (user
+//! indexes spilled to the disk-backed B+ tree when they are created over data). After the last
+//! statement of every history a probe battery (point, range, IN, BETWEEN, IS NULL, ORDER BY, GROUP BY
+//! on the indexed columns) and the statement outcomes themselves have to agree. Disk-backed indexes
+//! alias through `Arc<Mutex<…>>` between clones of a `Database`, so nothing is cloned: each history
+//! is a replay from the empty database in a private directory that is removed afterwards.
 
-pub fn run(_tier: &str) -> i32 {
-    eprintln!("MACHINERY-ERROR C16 is not built yet");
-    2
+use std::collections::{BTreeMap, HashSet};
+use std::path::PathBuf;
+use std::sync::atomic::{AtomicU64, Ordering};
+use std::time::Instant;
+
+use serde::{Deserialize, Serialize};
+use serde_json::{json, Value};
+use vibesql_storage::database::{DatabaseConfig, IndexData, SpillPolicy};
+use vibesql_storage::Database;
+use vibesql_types::SqlValue;
+
+use vcore::exec::{self, Out};
+use vcore::report::Report;
+use vcore::util::par_map;
+use vcore::val;
+
+#[derive(Clone, Debug)]
+pub struct Cfg {
+    pub name: &'static str,
+    pub budget: usize,
+    pub policy: SpillPolicy,
 }
 
-pub fn replay(_case: &serde_json::Value) -> i32 {
-    eprintln!("MACHINERY-ERROR C16 is not built yet");
-    2
+fn policy_name(p: SpillPolicy) -> &'static str {
+    match p {
+        SpillPolicy::Reject => "Reject",
+        SpillPolicy::SpillToDisk => "SpillToDisk",
+        SpillPolicy::BestEffort => "BestEffort",
+    }
+}
+
+fn configs() -> Vec<Cfg> {
+    vec![
+        Cfg { name: "budget0_SpillToDisk", budget: 0, policy: SpillPolicy::SpillToDisk },
+        Cfg { name: "budget100_BestEffort", budget: 100, policy: SpillPolicy::BestEffort },
+        Cfg { name: "budget0_BestEffort", budget: 0, policy: SpillPolicy::BestEffort },
+        Cfg { name: "budget100_SpillToDisk", budget: 100, policy: SpillPolicy::SpillToDisk },
+        Cfg { name: "budget1MiB_SpillToDisk", budget: 1 << 20, policy: SpillPolicy::SpillToDisk },
+    ]
+}
+
+pub const PRELUDE: &[&str] = &["CREATE TABLE t (id INT, v INT, s VARCHAR(20), w DOUBLE)"];
+
+/// rows present before the history starts (second initial state)
+pub const PREFILL: &[&str] = &["INSERT INTO t VALUES (1, 10, 'a', 0.5), (2, 10, 'b', 10.5), (3, 20, 'b', 10.0), (4, NULL, NULL, NULL)"];
+
+pub fn alphabet(thorough: bool) -> Vec<String> {
+    let mut a: Vec<&str> = vec![
+        "CREATE INDEX iv ON t (v)",
+        "CREATE INDEX isx ON t (s)",
+        "CREATE INDEX ivs ON t (v, s)",
+        "CREATE INDEX isv ON t (s, v)",
+        "INSERT INTO t VALUES (5, 10, 'c', 0.5)",
+        "INSERT INTO t VALUES (6, 30, 'a', 11.0), (7, 5, 'ab', 10.25)",
+        "INSERT INTO t VALUES (1, 10, 'a', 0.5), (2, 10, 'b', 10.5)",
+        "UPDATE t SET v = 20 WHERE id = 1",
+        "UPDATE t SET s = 'b' WHERE id = 1",
+        "UPDATE t SET v = v + 1",
+        "DELETE FROM t WHERE id = 2",
+        "DELETE FROM t WHERE v >= 20",
+        "DELETE FROM t",
+    ];
+    if thorough {
+        a.extend([
+            "CREATE INDEX iwv ON t (w, v)",
+            "CREATE INDEX iw ON t (w)",
+            "DROP INDEX iv",
+            "CREATE UNIQUE INDEX uv ON t (id)",
+            "UPDATE t SET v = 10 WHERE s = 'b'",
+            "UPDATE t SET v = NULL WHERE id = 3",
+            "UPDATE t SET w = w + 0.5 WHERE v = 10",
+            "DELETE FROM t WHERE s = 'b'",
+            "INSERT INTO t VALUES (8, NULL, 'a', 0.0)",
+            "TRUNCATE TABLE t",
+        ]);
+    }
+    a.into_iter().map(|s| s.to_string()).collect()
+}
+
+// ------------------------------------------------------------------------------------------------
+// scratch directories
+
+static DIR_SEQ: AtomicU64 = AtomicU64::new(0);
+/// worker mode: print a progress marker before every statement, so that the driver knows which
+/// statement a worker that stopped answering was executing
+static MARK: std::sync::atomic::AtomicBool = std::sync::atomic::AtomicBool::new(false);
+
+fn mark(step: usize) {
+    if MARK.load(Ordering::Relaxed) {
+        use std::io::Write;
+        let o = std::io::stdout();
+        let mut l = o.lock();
+        let _ = writeln!(l, "M {}", step);
+        let _ = l.flush();
+    }
+}
+
+/// tmpfs when there is one (every page write of the disk-backed tree is followed by an fsync),
+/// otherwise /tmp; always a private directory of this process
+fn scratch_base() -> PathBuf {
+    let shm = PathBuf::from("/dev/shm");
+    let root = if std::env::var("VERIF_C16_SCRATCH").is_ok() {
+        PathBuf::from(std::env::var("VERIF_C16_SCRATCH").unwrap())
+    } else if shm.is_dir() && std::fs::create_dir_all(shm.join(format!("idxmc-{}", std::process::id()))).is_ok() {
+        shm
+    } else {
+        PathBuf::from("/tmp")
+    };
+    root.join(format!("idxmc-{}", std::process::id()))
+}
+
+struct Scratch {
+    path: PathBuf,
+}
+impl Scratch {
+    fn new(base: &PathBuf) -> Result<Scratch, String> {
+        let p = base.join(format!("h{}", DIR_SEQ.fetch_add(1, Ordering::Relaxed)));
+        std::fs::create_dir_all(&p).map_err(|e| format!("cannot create {}: {}", p.display(), e))?;
+        Ok(Scratch { path: p })
+    }
+}
+impl Drop for Scratch {
+    fn drop(&mut self) {
+        let _ = std::fs::remove_dir_all(&self.path);
+    }
+}
+
+fn mk_b(cfg: &Cfg, dir: &PathBuf) -> Database {
+    let c = DatabaseConfig { memory_budget: cfg.budget, disk_budget: 1 << 30, spill_policy: cfg.policy, sql_mode: vibesql_types::SqlMode::default() };
+    Database::with_path_and_config(dir.clone(), c)
+}
+
+// ------------------------------------------------------------------------------------------------
+// observations
+
+fn out_text(o: &Out) -> String {
+    match o {
+        Out::Rows(r) => val::fmt_bag(&val::bag(r)),
+        Out::Count(n) => format!("count({})", n),
+        Out::Done => "ok".into(),
+        Out::Err(..) => "err".into(),
+        Out::Panic(_) => "PANIC".into(),
+    }
+}
+
+fn distinct_vals(rows: &[Vec<SqlValue>], col: usize, max: usize) -> Vec<SqlValue> {
+    let mut v: Vec<SqlValue> = vec![];
+    for r in rows {
+        if let Some(x) = r.get(col) {
+            if !x.is_null() && !v.iter().any(|y| val::exact(y) == val::exact(x)) {
+                v.push(x.clone());
+            }
+        }
+    }
+    v.sort_by(|a, b| val::norm(a).cmp(&val::norm(b)));
+    v.truncate(max);
+    v
+}
+
+/// (class, sql): the probe battery derived from the table content of the in-memory twin
+pub fn battery(a: &Database, thorough: bool, extra_v: &[String]) -> Vec<(&'static str, String)> {
+    let rows = vcore::obs::rows_of(a, "T");
+    let mut q: Vec<(&'static str, String)> = vec![("full", "SELECT * FROM t".into()), ("count", "SELECT COUNT(*) FROM t".into())];
+    let big = rows.len() > 20_000;
+    let cols: &[(usize, &str)] = if big { &[(1, "v")] } else if thorough { &[(1, "v"), (2, "s"), (3, "w")] } else { &[(1, "v"), (2, "s")] };
+    for (ci, c) in cols.iter().copied() {
+        if big {
+            // a table this size: probes on the indexed column at the given literals only
+            for l in extra_v {
+                q.push(("eq", format!("SELECT * FROM t WHERE v = {}", l)));
+                q.push(("le", format!("SELECT id FROM t WHERE v <= {}", l)));
+                q.push(("ge", format!("SELECT id FROM t WHERE v >= {}", l)));
+            }
+            q.push(("in", format!("SELECT * FROM t WHERE v IN ({})", extra_v.join(", "))));
+            q.push(("isnull", "SELECT * FROM t WHERE v IS NULL".to_string()));
+            continue;
+        }
+        let mut lits: Vec<String> = distinct_vals(&rows, ci, if thorough { 3 } else { 2 }).iter().map(vcore::obs::sql_lit).collect();
+        // literals that need not be in the table
+        let extra: &[&str] = match (c, thorough) {
+            ("v", true) => &["10", "15"],
+            ("v", false) => &["15"],
+            ("s", true) => &["'b'", "'aa'"],
+            ("s", false) => &["'aa'"],
+            (_, _) => &["10", "0"],
+        };
+        for l in extra {
+            if !lits.contains(&l.to_string()) {
+                lits.push(l.to_string());
+            }
+        }
+        if c == "v" {
+            for l in extra_v {
+                if !lits.contains(l) {
+                    lits.push(l.clone());
+                }
+            }
+        }
+        for l in &lits {
+            q.push(("eq", format!("SELECT * FROM t WHERE {} = {}", c, l)));
+            q.push(("ge", format!("SELECT * FROM t WHERE {} >= {}", c, l)));
+            q.push(("gt", format!("SELECT * FROM t WHERE {} > {}", c, l)));
+            q.push(("lt", format!("SELECT * FROM t WHERE {} < {}", c, l)));
+            q.push(("le", format!("SELECT * FROM t WHERE {} <= {}", c, l)));
+        }
+        if lits.len() >= 2 {
+            q.push(("in", format!("SELECT * FROM t WHERE {} IN ({}, {})", c, lits[0], lits[1])));
+            q.push(("between", format!("SELECT * FROM t WHERE {} BETWEEN {} AND {}", c, lits[0], lits[1])));
+            q.push(("range2", format!("SELECT * FROM t WHERE {} > {} AND {} <= {}", c, lits[0], c, lits[lits.len() - 1])));
+            q.push(("range_ge_lt", format!("SELECT * FROM t WHERE {} >= {} AND {} < {}", c, lits[0], c, lits[1])));
+        }
+        q.push(("isnull", format!("SELECT * FROM t WHERE {} IS NULL", c)));
+        q.push(("notnull", format!("SELECT * FROM t WHERE {} IS NOT NULL", c)));
+        q.push(("orderby", format!("SELECT * FROM t ORDER BY {}", c)));
+        q.push(("orderby_desc", format!("SELECT id FROM t ORDER BY {} DESC", c)));
+        q.push(("groupby", format!("SELECT {}, COUNT(*) FROM t GROUP BY {}", c, c)));
+        q.push(("minmax", format!("SELECT MIN({}), MAX({}) FROM t", c, c)));
+    }
+    // both indexed columns in one predicate (composite index / index choice)
+    if big {
+        return q;
+    }
+    let vs = distinct_vals(&rows, 1, 2);
+    let ss = distinct_vals(&rows, 2, 2);
+    for v in &vs {
+        for s in &ss {
+            q.push(("eq_eq", format!("SELECT * FROM t WHERE v = {} AND s = {}", vcore::obs::sql_lit(v), vcore::obs::sql_lit(s))));
+            q.push(("eq_ge", format!("SELECT * FROM t WHERE v = {} AND s >= {}", vcore::obs::sql_lit(v), vcore::obs::sql_lit(s))));
+        }
+    }
+    q
+}
+
+thread_local! {
+    static PARSED: std::cell::RefCell<std::collections::HashMap<String, Option<std::rc::Rc<vibesql_ast::SelectStmt>>>> = std::cell::RefCell::new(std::collections::HashMap::new());
+}
+
+/// probe texts repeat across histories: parse each once per thread (always through the real parser)
+fn parsed_select(sql: &str) -> Option<std::rc::Rc<vibesql_ast::SelectStmt>> {
+    PARSED.with(|p| {
+        let mut p = p.borrow_mut();
+        if let Some(x) = p.get(sql) {
+            return x.clone();
+        }
+        let v = match exec::parse(sql) {
+            Ok(vibesql_ast::Statement::Select(s)) => Some(std::rc::Rc::new(*s)),
+            _ => None,
+        };
+        p.insert(sql.to_string(), v.clone());
+        v
+    })
+}
+
+/// names of the user indexes of `db` that are disk-backed right now
+fn disk_backed(db: &Database) -> Vec<String> {
+    let mut v: Vec<String> = db.list_indexes().into_iter().filter(|i| matches!(db.get_index_data(i), Some(IndexData::DiskBacked { .. }))).collect();
+    v.sort();
+    v
+}
+
+#[derive(Clone, Debug)]
+pub struct Diff {
+    /// 1-based step of the history at which the twins differ
+    pub step: usize,
+    /// "statement" or the probe class
+    pub class: String,
+    pub sql: String,
+    pub a: String,
+    pub b: String,
+    pub disk_backed: Vec<String>,
+}
+
+#[derive(Default, Clone, Debug)]
+pub struct HStats {
+    pub stmts: u64,
+    pub ok: u64,
+    pub err: u64,
+    pub probes: u64,
+    pub ended_disk_backed: bool,
+    pub stmts_while_disk_backed: u64,
+    pub outcomes: HashSet<u64>,
+}
+
+/// statement kind for signatures: first two words and the column a SET / WHERE names
+fn stmt_shape(sql: &str) -> String {
+    let w: Vec<&str> = sql.split_whitespace().collect();
+    let head = w.iter().take(2).copied().collect::<Vec<_>>().join(" ");
+    let mut extra = String::new();
+    if let Some(p) = w.iter().position(|x| *x == "SET") {
+        extra.push_str(&format!(" SET {}", w.get(p + 1).unwrap_or(&"")));
+    }
+    if let Some(p) = w.iter().position(|x| *x == "WHERE") {
+        extra.push_str(&format!(" WHERE {} {}", w.get(p + 1).unwrap_or(&""), w.get(p + 2).unwrap_or(&"")));
+    }
+    if head == "CREATE INDEX" || head == "CREATE UNIQUE" || head == "DROP INDEX" {
+        return sql.to_string();
+    }
+    format!("{}{}", head, extra)
+}
+
+/// Execute prelude + init + ops on both twins. `probe_every_step`: battery after every step (replay /
+/// confirmation), otherwise after the last one only. Err = machinery problem.
+pub fn run_history(cfg: &Cfg, base: &PathBuf, thorough: bool, init: &[&str], ops: &[String], probe_every_step: bool, st: &mut HStats, log: Option<&mut Vec<String>>) -> Result<Option<Diff>, String> {
+    let setup: Vec<String> = PRELUDE.iter().chain(init.iter()).map(|s| s.to_string()).collect();
+    run_twins(cfg, base, thorough, &setup, &setup, ops, probe_every_step, &[], st, log)
+}
+
+/// The general form: each twin has its own setup statements (they must succeed and are not compared:
+/// the large-table family creates the index before the rows on one side and after them on the other),
+/// then `ops` are executed on both and compared. `extra_v` are further literals for the probes on `v`.
+#[allow(clippy::too_many_arguments)]
+pub fn run_twins(cfg: &Cfg, base: &PathBuf, thorough: bool, setup_a: &[String], setup_b: &[String], ops: &[String], probe_every_step: bool, extra_v: &[String], st: &mut HStats, log: Option<&mut Vec<String>>) -> Result<Option<Diff>, String> {
+    let scratch = Scratch::new(base)?;
+    let mut a = Database::new();
+    let mut b = mk_b(cfg, &scratch.path);
+    let mut log = log;
+    mark(0);
+    for s in setup_a {
+        let oa = exec::exec(&mut a, s);
+        if !oa.is_ok() {
+            return Err(format!("setup statement `{}` failed on the in-memory twin: {}", vcore::util::trunc(s, 80), oa.brief()));
+        }
+    }
+    for s in setup_b {
+        let ob = exec::exec(&mut b, s);
+        if !ob.is_ok() {
+            if setup_a.contains(s) {
+                // the in-memory twin accepted the very same statement
+                return Ok(Some(Diff { step: 0, class: "statement".into(), sql: vcore::util::trunc(s, 120), a: "ok".into(), b: ob.brief(), disk_backed: disk_backed(&b) }));
+            }
+            return Err(format!("setup statement `{}` failed on the spill twin: {}", vcore::util::trunc(s, 80), ob.brief()));
+        }
+    }
+    let mut result = None;
+    for (i, op) in ops.iter().enumerate() {
+        let was_disk = !disk_backed(&b).is_empty();
+        mark(i + 1);
+        let oa = exec::exec(&mut a, op);
+        let ob = exec::exec(&mut b, op);
+        st.stmts += 1;
+        if was_disk {
+            st.stmts_while_disk_backed += 1;
+        }
+        if oa.is_ok() {
+            st.ok += 1
+        } else {
+            st.err += 1
+        }
+        let (ta, tb) = (out_text(&oa), out_text(&ob));
+        if let Some(l) = log.as_deref_mut() {
+            l.push(format!("step {}: {}  => in-memory: {} | spill config: {}   [disk-backed now: {:?}]", i + 1, op, oa.brief(), ob.brief(), disk_backed(&b)));
+        }
+        if ta != tb {
+            // a statement both sides reject is not a case; one side rejecting is
+            result = Some(Diff { step: i + 1, class: "statement".into(), sql: op.clone(), a: oa.brief(), b: ob.brief(), disk_backed: disk_backed(&b) });
+            break;
+        }
+        if probe_every_step || i + 1 == ops.len() {
+            let db_now = disk_backed(&b);
+            for (class, sql) in battery(&a, thorough, extra_v) {
+                let (ra, rb) = match parsed_select(&sql) {
+                    Some(stmt) => (exec::select_stmt(&a, &stmt), exec::select_stmt(&b, &stmt)),
+                    None => (exec::select(&a, &sql), exec::select(&b, &sql)),
+                };
+                st.probes += 1;
+                let (ta, tb) = (out_text(&ra), out_text(&rb));
+                st.outcomes.insert(vcore::util::hash64(ta.as_bytes()));
+                if ta != tb {
+                    if ra.is_err() && rb.is_err() {
+                        continue;
+                    }
+                    if let Some(l) = log.as_deref_mut() {
+                        l.push(format!("   probe {} => in-memory: {} | spill config: {}", sql, ta, tb));
+                    }
+                    result = Some(Diff { step: i + 1, class: class.to_string(), sql, a: ta, b: tb, disk_backed: db_now.clone() });
+                    break;
+                }
+            }
+            if result.is_some() {
+                break;
+            }
+        }
+    }
+    st.ended_disk_backed = !disk_backed(&b).is_empty();
+    drop(b);
+    drop(a);
+    drop(scratch);
+    Ok(result)
+}
+
+/// Signature of a differing case, from the input only: the probe class and column, the indexes on
+/// that column the history has created (single-column / composite-leading), the kind of the last
+/// statement. Configuration and initial rows are not part of it (they are in the replay file).
+fn signature(_cfg: &Cfg, _init: &str, ops: &[String], d: &Diff) -> Vec<(&'static str, String)> {
+    let last = ops.get(d.step - 1).map(|s| stmt_shape(s)).unwrap_or_default();
+    let mut idx: Vec<String> = vec![];
+    for o in &ops[..d.step] {
+        let w: Vec<&str> = o.split_whitespace().collect();
+        if o.starts_with("CREATE") {
+            if let Some(p) = w.iter().position(|x| *x == "INDEX") {
+                let n = w.get(p + 1).unwrap_or(&"").to_string();
+                if !idx.contains(&n) {
+                    idx.push(n);
+                }
+            }
+        }
+        if o.starts_with("DROP INDEX") {
+            if let Some(n) = w.get(2) {
+                idx.retain(|x| x != n);
+            }
+        }
+    }
+    idx.sort();
+    // probe column: the column the WHERE / ORDER BY / GROUP BY of the probe names first
+    let col = ["v", "s", "w"].iter().find(|c| d.sql.contains(&format!(" {} ", c)) || d.sql.ends_with(&format!(" {}", c)) || d.sql.contains(&format!("({})", c))).copied().unwrap_or("-");
+    let lead = |i: &str| -> &str {
+        match i {
+            "iv" | "ivs" => "v",
+            "isx" | "isv" => "s",
+            "iw" | "iwv" => "w",
+            "uv" => "id",
+            _ => "?",
+        }
+    };
+    let on_col: Vec<String> = idx.iter().filter(|i| lead(i) == col).cloned().collect();
+    vec![
+        ("probe", if d.class == "statement" { "statement".to_string() } else { format!("{} on {}", d.class, col) }),
+        ("indexes_leading_with_probe_column", on_col.join("+")),
+        ("last_stmt", last),
+    ]
+}
+
+fn case_json(cfg: &Cfg, thorough: bool, init_name: &str, init: &[&str], ops: &[String], d: &Diff) -> Value {
+    json!({
+        "tier": if thorough { "thorough" } else { "quick" },
+        "config": {"name": cfg.name, "memory_budget": cfg.budget, "spill_policy": policy_name(cfg.policy)},
+        "prelude": PRELUDE, "init_name": init_name, "init": init, "steps": ops,
+        "differs_at_step": d.step, "probe": d.sql, "in_memory": d.a, "spilled": d.b, "disk_backed_indexes": d.disk_backed,
+    })
+}
+
+// ------------------------------------------------------------------------------------------------
+// large-table family: realistic node degrees (hundreds of keys per page), spill by bulk load of a few
+// hundred rows, and the row-count threshold (DISK_BACKED_THRESHOLD = 100 000 rows at CREATE INDEX)
+
+pub struct LargeCase {
+    pub name: &'static str,
+    pub rows: usize,
+    /// v of row i
+    pub v: fn(usize) -> i64,
+    pub cfg: Cfg,
+    /// in-memory twin creates the index before the rows (needed when the row count alone selects the backend)
+    pub index_first_on_a: bool,
+    pub depth: usize,
+}
+
+fn v_distinct(i: usize) -> i64 {
+    i as i64
+}
+fn v_even(i: usize) -> i64 {
+    2 * i as i64
+}
+fn v_mod3(i: usize) -> i64 {
+    (i % 3) as i64
+}
+fn v_pairs(i: usize) -> i64 {
+    (i / 2) as i64
+}
+
+pub fn large_cases(thorough: bool) -> Vec<LargeCase> {
+    let spill = Cfg { name: "budget0_SpillToDisk", budget: 0, policy: SpillPolicy::SpillToDisk };
+    let best = Cfg { name: "budget0_BestEffort", budget: 0, policy: SpillPolicy::BestEffort };
+    let roomy = Cfg { name: "budget1TiB_BestEffort", budget: 1 << 40, policy: SpillPolicy::BestEffort };
+    let mut v = vec![
+        LargeCase { name: "spill_300_distinct_keys", rows: 300, v: v_distinct, cfg: spill.clone(), index_first_on_a: false, depth: if thorough { 2 } else { 1 } },
+        LargeCase { name: "spill_300_even_keys", rows: 300, v: v_even, cfg: spill.clone(), index_first_on_a: false, depth: 1 },
+        LargeCase { name: "spill_600_rows_3_keys", rows: 600, v: v_mod3, cfg: spill.clone(), index_first_on_a: false, depth: 1 },
+        LargeCase { name: "spill_600_rows_2_per_key", rows: 600, v: v_pairs, cfg: best, index_first_on_a: false, depth: 1 },
+    ];
+    if thorough {
+        v.push(LargeCase { name: "threshold_100000_distinct_keys", rows: 100_000, v: v_distinct, cfg: roomy.clone(), index_first_on_a: true, depth: 1 });
+        v.push(LargeCase { name: "threshold_100000_rows_2_per_key", rows: 100_000, v: v_pairs, cfg: roomy, index_first_on_a: true, depth: 0 });
+    }
+    v
+}
+
+fn large_fill(lc: &LargeCase) -> Vec<String> {
+    let mut out = vec![];
+    let mut i = 0;
+    while i < lc.rows {
+        let end = (i + 500).min(lc.rows);
+        let vals: Vec<String> = (i..end).map(|k| format!("({}, {}, 's{}', {}.{})", k, (lc.v)(k), k % 7, k / 2, if k % 2 == 0 { 0 } else { 5 })).collect();
+        out.push(format!("INSERT INTO t VALUES {}", vals.join(", ")));
+        i = end;
+    }
+    out
+}
+
+fn large_alphabet(n: usize) -> Vec<String> {
+    let dup: Vec<String> = (0..40).map(|k| format!("({}, {}, 'd', 0.5)", n + k, k)).collect();
+    let fresh: Vec<String> = (0..40).map(|k| format!("({}, {}, 'f', 1.5)", n + 100 + k, n + 1000 + k)).collect();
+    // a low-cardinality burst: 200 rows with one and the same key
+    let same: Vec<String> = (0..200).map(|k| format!("({}, 7, 'h', 2.5)", n + 200 + k)).collect();
+    vec![
+        format!("INSERT INTO t VALUES {}", dup.join(", ")),
+        format!("INSERT INTO t VALUES {}", fresh.join(", ")),
+        format!("INSERT INTO t VALUES {}", same.join(", ")),
+        format!("UPDATE t SET v = v + {} WHERE id < 50", n + 5000),
+        "DELETE FROM t WHERE id >= 100 AND id < 200".to_string(),
+        "UPDATE t SET s = 'zz' WHERE v < 30".to_string(),
+        "DELETE FROM t WHERE v < 150".to_string(),
+    ]
+}
+
+fn large_lits(n: usize) -> Vec<String> {
+    let mut l: Vec<usize> = vec![7, 0, 39, 40, 152, 153, 190, 191, 192];
+    if n > 30_000 {
+        // leaf / internal node boundaries of a bulk-loaded tree at the degree of an INTEGER key
+        l = vec![7, 152, 153, 23408, 23409, 23410];
+    }
+    l.push(n / 2);
+    l.push(n - 1);
+    l.into_iter().map(|x| x.to_string()).collect()
+}
+
+const LARGE_INDEX: &str = "CREATE INDEX iv ON t (v)";
+
+fn cfg_by_name(n: &str) -> Option<Cfg> {
+    configs().into_iter().find(|c| c.name == n)
+}
+
+
+// ------------------------------------------------------------------------------------------------
+// jobs, worker subprocesses (a statement that never returns must not hang the check)
+
+#[derive(Clone, Debug, Serialize, Deserialize)]
+pub struct Job {
+    /// "std" | "large"
+    pub kind: String,
+    /// std: configuration name; large: case name
+    pub name: String,
+    /// std: 0 = empty table, 1 = prefilled
+    pub init: usize,
+    /// std: use the tier's full alphabet (else the small one)
+    pub full: bool,
+    /// alphabet indexes of the history (std) / of the suffix (large)
+    pub h: Vec<usize>,
+    pub deadline_s: u64,
+}
+
+#[derive(Clone, Debug, Default, Serialize, Deserialize)]
+pub struct JobOut {
+    pub stmts: u64,
+    pub ok: u64,
+    pub err: u64,
+    pub probes: u64,
+    pub ended_disk_backed: bool,
+    pub stmts_while_disk_backed: u64,
+    pub outcomes: Vec<u64>,
+    pub reach_spill: u64,
+    pub reach_disk_op: u64,
+    pub reach_index_scan: u64,
+    pub reach_where_skip: u64,
+    /// machinery problem
+    pub error: Option<String>,
+    /// (step, class, sql, a, b, disk-backed indexes)
+    pub diff: Option<(usize, String, String, String, String, Vec<String>)>,
+    /// the statements of the job as text (for reports)
+    pub ops: Vec<String>,
+}
+
+#[derive(Clone, Debug)]
+pub enum JobResult {
+    Done(JobOut),
+    /// no progress within the deadline (worker killed); the step (0 = setup) it was executing
+    Hung(usize),
+    /// worker died (abort / crash) while executing the given step
+    Died(usize),
+}
+
+fn inits() -> Vec<(&'static str, Vec<&'static str>)> {
+    vec![("empty", vec![]), ("prefilled", PREFILL.to_vec())]
+}
+
+fn job_ops(job: &Job, thorough: bool) -> Vec<String> {
+    if job.kind == "std" {
+        let alpha = if job.full { alphabet(thorough) } else { alphabet(false) };
+        job.h.iter().map(|i| alpha[*i].clone()).collect()
+    } else {
+        let Some(lc) = large_cases(true).into_iter().find(|l| l.name == job.name) else { return vec![] };
+        let alpha = large_alphabet(lc.rows);
+        let mut ops = vec![];
+        if !lc.index_first_on_a {
+            ops.push(LARGE_INDEX.to_string());
+        }
+        ops.extend(job.h.iter().map(|i| alpha[*i].clone()));
+        ops
+    }
+}
+
+fn large_setups(lc: &LargeCase) -> (Vec<String>, Vec<String>) {
+    let fill = large_fill(lc);
+    let mut setup_a: Vec<String> = PRELUDE.iter().map(|s| s.to_string()).collect();
+    let mut setup_b = setup_a.clone();
+    if lc.index_first_on_a {
+        setup_a.push(LARGE_INDEX.to_string());
+        setup_a.extend(fill.iter().cloned());
+        setup_b.extend(fill.iter().cloned());
+        setup_b.push(LARGE_INDEX.to_string());
+    } else {
+        setup_a.extend(fill.iter().cloned());
+        setup_b.extend(fill.iter().cloned());
+    }
+    (setup_a, setup_b)
+}
+
+/// evaluate one job (runs inside a worker process)
+pub fn eval_job(job: &Job, base: &PathBuf, thorough: bool) -> JobOut {
+    let r0: BTreeMap<&str, u64> = vibesql_types::verif::snapshot().into_iter().collect();
+    let mut st = HStats::default();
+    let ops = job_ops(job, thorough);
+    let r = if job.kind == "std" {
+        match cfg_by_name(&job.name) {
+            None => Err(format!("unknown configuration {}", job.name)),
+            Some(cfg) => {
+                let ini = inits();
+                run_history(&cfg, base, thorough, &ini[job.init.min(1)].1, &ops, false, &mut st, None)
+            }
+        }
+    } else {
+        match large_cases(true).into_iter().find(|l| l.name == job.name) {
+            None => Err(format!("unknown large case {}", job.name)),
+            Some(lc) => {
+                let (sa, sb) = large_setups(&lc);
+                run_twins(&lc.cfg, base, thorough, &sa, &sb, &ops, false, &large_lits(lc.rows), &mut st, None)
+            }
+        }
+    };
+    let r1: BTreeMap<&str, u64> = vibesql_types::verif::snapshot().into_iter().collect();
+    let dr = |k: &str| r1.get(k).copied().unwrap_or(0) - r0.get(k).copied().unwrap_or(0);
+    let mut out = JobOut {
+        stmts: st.stmts,
+        ok: st.ok,
+        err: st.err,
+        probes: st.probes,
+        ended_disk_backed: st.ended_disk_backed,
+        stmts_while_disk_backed: st.stmts_while_disk_backed,
+        outcomes: st.outcomes.iter().copied().collect(),
+        reach_spill: dr("spill_to_disk"),
+        reach_disk_op: dr("disk_backed_op"),
+        reach_index_scan: dr("index_scan"),
+        reach_where_skip: dr("index_where_skip"),
+        error: None,
+        diff: None,
+        ops,
+    };
+    match r {
+        Err(e) => out.error = Some(e),
+        Ok(None) => {}
+        Ok(Some(d)) => out.diff = Some((d.step, d.class, d.sql, vcore::util::trunc(&d.a, 600), vcore::util::trunc(&d.b, 600), d.disk_backed)),
+    }
+    out
+}
+
+/// `idxmccheck c16worker <tier>`: one job (JSON) per input line, one JobOut (JSON) per output line
+pub fn worker_main(tier: &str) -> i32 {
+    use std::io::{BufRead, Write};
+    let thorough = tier == "thorough";
+    MARK.store(true, Ordering::Relaxed);
+    let base = scratch_base();
+    let _ = std::fs::create_dir_all(&base);
+    let stdin = std::io::stdin();
+    let stdout = std::io::stdout();
+    for line in stdin.lock().lines() {
+        let Ok(line) = line else { break };
+        if line.trim().is_empty() {
+            continue;
+        }
+        let out = match serde_json::from_str::<Job>(&line) {
+            Ok(job) => eval_job(&job, &base, thorough),
+            Err(e) => JobOut { error: Some(format!("bad job: {}", e)), ..Default::default() },
+        };
+        let mut l = stdout.lock();
+        let _ = writeln!(l, "{}", serde_json::to_string(&out).unwrap_or_else(|_| "{}".into()));
+        let _ = l.flush();
+    }
+    let _ = std::fs::remove_dir_all(&base);
+    0
+}
+
+struct Worker {
+    child: std::process::Child,
+    stdin: std::process::ChildStdin,
+    rx: std::sync::mpsc::Receiver<String>,
+}
+
+fn spawn_worker(tier: &str) -> Result<Worker, String> {
+    use std::io::BufRead;
+    use std::process::{Command, Stdio};
+    let exe = std::env::current_exe().map_err(|e| format!("current_exe: {}", e))?;
+    let mut child = Command::new(exe).arg("c16worker").arg(tier).stdin(Stdio::piped()).stdout(Stdio::piped()).stderr(Stdio::null()).spawn().map_err(|e| format!("cannot start a worker: {}", e))?;
+    let stdin = child.stdin.take().ok_or("no stdin")?;
+    let stdout = child.stdout.take().ok_or("no stdout")?;
+    let (tx, rx) = std::sync::mpsc::channel();
+    std::thread::spawn(move || {
+        let r = std::io::BufReader::new(stdout);
+        for line in r.lines() {
+            match line {
+                Ok(l) => {
+                    if tx.send(l).is_err() {
+                        break;
+                    }
+                }
+                Err(_) => break,
+            }
+        }
+    });
+    Ok(Worker { child, stdin, rx })
+}
+
+fn kill_worker(w: &mut Worker) {
+    let pid = w.child.id();
+    let _ = w.child.kill();
+    let _ = w.child.wait();
+    // the worker's private scratch directory
+    for root in ["/dev/shm", "/tmp"] {
+        let _ = std::fs::remove_dir_all(PathBuf::from(root).join(format!("idxmc-{}", pid)));
+    }
+}
+
+/// Evaluate all jobs on a pool of worker processes; results in job order.
+pub fn run_jobs(jobs: &[Job], tier: &str, rep: &Report) -> Vec<JobResult> {
+    use std::io::Write;
+    let n = vcore::util::n_threads().min(jobs.len().max(1));
+    let next = std::sync::atomic::AtomicUsize::new(0);
+    let results: std::sync::Mutex<Vec<Option<JobResult>>> = std::sync::Mutex::new(vec![None; jobs.len()]);
+    std::thread::scope(|s| {
+        for _ in 0..n {
+            s.spawn(|| {
+                let mut w: Option<Worker> = None;
+                loop {
+                    let i = next.fetch_add(1, Ordering::Relaxed);
+                    if i >= jobs.len() {
+                        break;
+                    }
+                    if w.is_none() {
+                        match spawn_worker(tier) {
+                            Ok(x) => w = Some(x),
+                            Err(e) => {
+                                rep.machinery_error(e);
+                                break;
+                            }
+                        }
+                    }
+                    let wk = w.as_mut().unwrap();
+                    let line = serde_json::to_string(&jobs[i]).unwrap_or_default();
+                    let sent = writeln!(wk.stdin, "{}", line).and_then(|_| wk.stdin.flush());
+                    let res = if sent.is_err() {
+                        JobResult::Died(0)
+                    } else {
+                        // the deadline applies to every step (progress marker) separately
+                        let mut step = 0usize;
+                        loop {
+                            match wk.rx.recv_timeout(std::time::Duration::from_secs(jobs[i].deadline_s)) {
+                                Ok(l) if l.starts_with("M ") => {
+                                    step = l[2..].trim().parse().unwrap_or(step);
+                                }
+                                Ok(l) => {
+                                    break match serde_json::from_str::<JobOut>(&l) {
+                                        Ok(o) => JobResult::Done(o),
+                                        Err(e) => JobResult::Done(JobOut { error: Some(format!("bad worker answer: {}", e)), ..Default::default() }),
+                                    }
+                                }
+                                Err(std::sync::mpsc::RecvTimeoutError::Timeout) => break JobResult::Hung(step),
+                                Err(std::sync::mpsc::RecvTimeoutError::Disconnected) => break JobResult::Died(step),
+                            }
+                        }
+                    };
+                    if !matches!(res, JobResult::Done(_)) {
+                        kill_worker(wk);
+                        w = None;
+                    }
+                    results.lock().unwrap()[i] = Some(res);
+                }
+                if let Some(mut wk) = w {
+                    drop(wk.stdin);
+                    let t0 = Instant::now();
+                    loop {
+                        match wk.child.try_wait() {
+                            Ok(Some(_)) => break,
+                            _ if t0.elapsed().as_secs() > 5 => {
+                                let _ = wk.child.kill();
+                                let _ = wk.child.wait();
+                                break;
+                            }
+                            _ => std::thread::sleep(std::time::Duration::from_millis(20)),
+                        }
+                    }
+                    let pid = wk.child.id();
+                    for root in ["/dev/shm", "/tmp"] {
+                        let _ = std::fs::remove_dir_all(PathBuf::from(root).join(format!("idxmc-{}", pid)));
+                    }
+                }
+            });
+        }
+    });
+    results.into_inner().unwrap().into_iter().map(|r| r.unwrap_or(JobResult::Died(0))).collect()
+}
+
+#[derive(Default)]
+struct Totals {
+    hist: u64,
+    stmts: u64,
+    probes: u64,
+    ok: u64,
+    err: u64,
+    outcomes: HashSet<u64>,
+    reach: BTreeMap<&'static str, u64>,
+}
+
+impl Totals {
+    fn add(&mut self, o: &JobOut) {
+        self.hist += 1;
+        self.stmts += o.stmts;
+        self.probes += o.probes;
+        self.ok += o.ok;
+        self.err += o.err;
+        self.outcomes.extend(o.outcomes.iter().copied());
+        *self.reach.entry("spill_to_disk").or_default() += o.reach_spill;
+        *self.reach.entry("disk_backed_op").or_default() += o.reach_disk_op;
+        *self.reach.entry("index_scan").or_default() += o.reach_index_scan;
+        *self.reach.entry("index_where_skip").or_default() += o.reach_where_skip;
+    }
+}
+
+fn to_diff(t: &(usize, String, String, String, String, Vec<String>)) -> Diff {
+    Diff { step: t.0, class: t.1.clone(), sql: t.2.clone(), a: t.3.clone(), b: t.4.clone(), disk_backed: t.5.clone() }
+}
+
+/// Re-execute a differing / hanging job; the engine picks among several usable indexes by HashMap
+/// iteration order (RandomState), so a difference that needs one particular choice does not show on
+/// every execution. Returns (times shown again, executions).
+fn confirm(job: &Job, first: &JobResult, tier: &str, rep: &Report) -> (usize, usize) {
+    let mut again = 0;
+    let mut tries = 0;
+    let hang = matches!(first, JobResult::Hung(_));
+    while tries < (if hang { 2 } else { 32 }) && again < 2 {
+        let batch: Vec<Job> = (0..if hang { 1 } else { 4 }).map(|_| job.clone()).collect();
+        for r in run_jobs(&batch, tier, rep) {
+            tries += 1;
+            let same = match (first, &r) {
+                (JobResult::Hung(x), JobResult::Hung(y)) | (JobResult::Died(x), JobResult::Died(y)) => x == y,
+                (JobResult::Done(a), JobResult::Done(b)) => match (&a.diff, &b.diff) {
+                    (Some(x), Some(y)) => x.0 == y.0 && x.2 == y.2 && x.3 == y.3 && x.4 == y.4,
+                    _ => false,
+                },
+                _ => false,
+            };
+            if same {
+                again += 1;
+            }
+        }
+        if matches!(first, JobResult::Hung(_)) && again >= 1 {
+            break; // one more full deadline is enough for a statement that never returns
+        }
+    }
+    (again, tries)
+}
+
+pub fn run(tier: &str) -> i32 {
+    let mut rep = Report::new("C16", tier, "model_checking");
+    let thorough = tier == "thorough";
+    let alpha_full = alphabet(thorough);
+    let alpha_small = alphabet(false);
+    // (configuration, depth bound, full alphabet of the tier?)
+    let cfgs = configs();
+    let plan: Vec<(usize, usize, bool)> = if thorough { vec![(0, 3, true), (1, 3, true), (2, 3, true), (3, 3, true), (4, 2, true), (0, 4, false)] } else { vec![(0, 3, true), (1, 2, true), (4, 1, true)] };
+    let max_secs = std::env::var("VERIF_MAX_SECS").ok().and_then(|s| s.parse::<f64>().ok()).unwrap_or(if thorough { 1500.0 } else { 90.0 });
+    let std_deadline = if thorough { 120 } else { 60 };
+    let t0 = Instant::now();
+    let mut tot = Totals::default();
+    let mut exhaustive = true;
+    let mut cfg_json = vec![];
+    let mut samples: Vec<Value> = vec![];
+    let ini = inits();
+    let only_large = std::env::var("VERIF_C16_ONLY").map(|v| v == "large").unwrap_or(false);
+    for (ci, depth, full) in &plan {
+        if only_large {
+            break;
+        }
+        let cfg = &cfgs[*ci];
+        let alpha: &Vec<String> = if *full { &alpha_full } else { &alpha_small };
+        let (mut c_hist, mut c_disk, mut c_stmts_disk, mut c_diffs, mut c_spill, mut c_dop) = (0u64, 0u64, 0u64, 0u64, 0u64, 0u64);
+        let mut depth_done = *depth;
+        let mut capped = false;
+        for (ii, (init_name, init)) in ini.iter().enumerate() {
+            let mut level: Vec<Vec<usize>> = vec![vec![]];
+            for d in 1..=*depth {
+                if t0.elapsed().as_secs_f64() > max_secs {
+                    capped = true;
+                    depth_done = depth_done.min(d - 1);
+                    break;
+                }
+                let mut next: Vec<Vec<usize>> = Vec::with_capacity(level.len() * alpha.len());
+                for h in &level {
+                    for a in 0..alpha.len() {
+                        let mut n = h.clone();
+                        n.push(a);
+                        next.push(n);
+                    }
+                }
+                let jobs: Vec<Job> = next.iter().map(|h| Job { kind: "std".into(), name: cfg.name.to_string(), init: ii, full: *full, h: h.clone(), deadline_s: std_deadline }).collect();
+                let res = run_jobs(&jobs, tier, &rep);
+                let mut keep = vec![];
+                for ((h, job), r) in next.into_iter().zip(jobs.iter()).zip(res.into_iter()) {
+                    c_hist += 1;
+                    let ops: Vec<String> = h.iter().map(|i| alpha[*i].clone()).collect();
+                    match &r {
+                        JobResult::Done(o) => {
+                            tot.add(o);
+                            c_spill += o.reach_spill;
+                            c_dop += o.reach_disk_op;
+                            if o.ended_disk_backed {
+                                c_disk += 1;
+                            }
+                            c_stmts_disk += o.stmts_while_disk_backed;
+                            if let Some(e) = &o.error {
+                                rep.machinery_error(e.clone());
+                                continue;
+                            }
+                            match &o.diff {
+                                None => {
+                                    if samples.len() < 3 && o.ended_disk_backed && h.len() >= 2 {
+                                        samples.push(json!({"config": cfg.name, "init": init_name, "steps": ops}));
+                                    }
+                                    keep.push(h);
+                                }
+                                Some(t) => {
+                                    c_diffs += 1;
+                                    let diff = to_diff(t);
+                                    if diff.step != ops.len() {
+                                        continue; // an intermediate statement differs: the shorter history reported that
+                                    }
+                                    let (again, tries) = confirm(job, &r, tier, &rep);
+                                    if again >= 1 {
+                                        rep.violation(
+                                            &signature(cfg, init_name, &ops, &diff),
+                                            format!(
+                                                "[{} | {}] {} ; after step {} `{}` gives {} with in-memory indexes and {} under the spill configuration (disk-backed: {:?}){}",
+                                                cfg.name,
+                                                init_name,
+                                                ops.join(" ; "),
+                                                diff.step,
+                                                diff.sql,
+                                                diff.a,
+                                                diff.b,
+                                                diff.disk_backed,
+                                                if tries > again { format!(" [shown by {} of {} re-executions: depends on which index the planner picks]", again, tries) } else { String::new() }
+                                            ),
+                                            case_json(cfg, thorough, init_name, init, &ops, &diff),
+                                        );
+                                    } else {
+                                        rep.machinery_error(format!("a differing history did not show again in {} re-executions: {:?}", tries, diff));
+                                    }
+                                }
+                            }
+                        }
+                        JobResult::Hung(step) | JobResult::Died(step) => {
+                            tot.hist += 1;
+                            c_diffs += 1;
+                            if *step != ops.len() {
+                                continue; // an earlier statement of the history: the shorter history reports it
+                            }
+                            let hung = matches!(r, JobResult::Hung(_));
+                            let what = if hung { format!("no result within {} s", std_deadline) } else { "the process died".to_string() };
+                            let (again, tries) = confirm(job, &r, tier, &rep);
+                            if again >= 1 {
+                                let diff = Diff { step: ops.len(), class: "statement".into(), sql: ops.last().cloned().unwrap_or_default(), a: "(returns)".into(), b: what.clone(), disk_backed: vec![] };
+                                let mut sig = signature(cfg, init_name, &ops, &diff);
+                                sig.push(("outcome", if hung { "hang".into() } else { "abort".into() }));
+                                rep.violation(&sig, format!("[{} | {}] {} ; {} under the spill configuration (the in-memory twin answers)", cfg.name, init_name, ops.join(" ; "), what), case_json(cfg, thorough, init_name, init, &ops, &diff));
+                            } else {
+                                rep.machinery_error(format!("a worker gave {} on {:?} but not again in {} re-executions", what, ops, tries));
+                            }
+                        }
+                    }
+                }
+                level = keep;
+            }
+        }
+        exhaustive &= !capped;
+        println!(
+            "C16 config {:<24} alphabet={} depth={}{} histories={} ended-with-a-disk-backed-index={} statements-run-on-disk-backed={} spill_to_disk={} disk_backed_op={} differing={}",
+            cfg.name,
+            alpha.len(),
+            depth_done,
+            if capped { " CAPPED" } else { "" },
+            c_hist,
+            c_disk,
+            c_stmts_disk,
+            c_spill,
+            c_dop,
+            c_diffs
+        );
+        cfg_json.push(json!({
+            "config": cfg.name, "memory_budget": cfg.budget, "spill_policy": policy_name(cfg.policy), "alphabet_size": alpha.len(), "depth_bound": depth, "depth_completed": depth_done, "capped": capped,
+            "histories": c_hist, "histories_ending_with_disk_backed_index": c_disk, "statements_on_disk_backed": c_stmts_disk,
+            "reach_spill_to_disk": c_spill, "reach_disk_backed_op": c_dop, "differing_histories": c_diffs,
+        }));
+    }
+
+    // large-table family
+    let mut large_json = vec![];
+    for lc in large_cases(thorough) {
+        let tl = Instant::now();
+        let alpha = large_alphabet(lc.rows);
+        // level by level: a differing history is reported and not extended
+        let mut level: Vec<Vec<usize>> = vec![vec![]];
+        let mut n_hist = 0usize;
+        let (mut differing, mut disk) = (0u64, 0u64);
+        let mut seen_sig: HashSet<String> = HashSet::new();
+        for d in 0..=lc.depth {
+        let seqs: Vec<Vec<usize>> = if d == 0 {
+            level.clone()
+        } else {
+            let mut nx = vec![];
+            for h in &level {
+                for a in 0..alpha.len() {
+                    let mut n = h.clone();
+                    n.push(a);
+                    nx.push(n);
+                }
+            }
+            nx
+        };
+        n_hist += seqs.len();
+        let mut keep: Vec<Vec<usize>> = vec![];
+        let deadline = if lc.rows >= 50_000 { 1500 } else { 60 };
+        let jobs: Vec<Job> = seqs.iter().map(|h| Job { kind: "large".into(), name: lc.name.to_string(), init: 0, full: true, h: h.clone(), deadline_s: deadline }).collect();
+        let res = run_jobs(&jobs, tier, &rep);
+        for (job, r) in jobs.iter().zip(res.into_iter()) {
+            let ops = job_ops(job, thorough);
+            let (diff, outcome) = match &r {
+                JobResult::Done(o) => {
+                    tot.add(o);
+                    if o.ended_disk_backed {
+                        disk += 1;
+                    }
+                    if let Some(e) = &o.error {
+                        rep.machinery_error(format!("large case {}: {}", lc.name, e));
+                        continue;
+                    }
+                    match &o.diff {
+                        None => {
+                            keep.push(job.h.clone());
+                            continue;
+                        }
+                        Some(t) => (to_diff(t), "differs"),
+                    }
+                }
+                JobResult::Hung(step) => {
+                    tot.hist += 1;
+                    if *step != ops.len() {
+                        differing += 1;
+                        continue; // the shorter history reports it
+                    }
+                    (Diff { step: ops.len(), class: "statement".into(), sql: ops.last().cloned().unwrap_or_default(), a: "(returns)".into(), b: format!("no result within {} s", deadline), disk_backed: vec![] }, "hang")
+                }
+                JobResult::Died(step) => {
+                    tot.hist += 1;
+                    if *step != ops.len() {
+                        differing += 1;
+                        continue;
+                    }
+                    (Diff { step: ops.len(), class: "statement".into(), sql: ops.last().cloned().unwrap_or_default(), a: "(returns)".into(), b: "the process died".into(), disk_backed: vec![] }, "abort")
+                }
+            };
+            differing += 1;
+            let last = if diff.step == 0 { "CREATE INDEX (setup)".to_string() } else { stmt_shape(&ops[diff.step - 1]) };
+            let sig = vec![("family", format!("large:{}", lc.name)), ("last_stmt", last), ("probe", diff.class.clone()), ("outcome", outcome.to_string())];
+            if !seen_sig.insert(format!("{:?}", sig)) {
+                rep.total_failing_cases.fetch_add(1, Ordering::Relaxed);
+                continue;
+            }
+            let (again, tries) = confirm(job, &r, tier, &rep);
+            if again == 0 {
+                rep.machinery_error(format!("large case {}: {:?} did not show again in {} re-executions", lc.name, diff, tries));
+                continue;
+            }
+            rep.violation(
+                &sig,
+                format!(
+                    "[large:{} | {}] {} rows ; {} ; at step {} `{}` gives {} with in-memory indexes and {} on the other side (disk-backed: {:?})",
+                    lc.name,
+                    lc.cfg.name,
+                    lc.rows,
+                    ops.iter().map(|o| vcore::util::trunc(o, 60)).collect::<Vec<_>>().join(" ; "),
+                    diff.step,
+                    vcore::util::trunc(&diff.sql, 100),
+                    vcore::util::trunc(&diff.a, 200),
+                    vcore::util::trunc(&diff.b, 200),
+                    diff.disk_backed
+                ),
+                json!({"tier": tier, "large_case": lc.name, "steps": ops, "differs_at_step": diff.step, "probe": diff.sql, "in_memory": vcore::util::trunc(&diff.a, 400), "spilled": vcore::util::trunc(&diff.b, 400)}),
+            );
+        }
+        level = keep;
+        }
+        println!("C16 large case {:<34} rows={} config={} histories={} ended-disk-backed={} differing={} wall={:.1}s", lc.name, lc.rows, lc.cfg.name, n_hist, disk, differing, tl.elapsed().as_secs_f64());
+        large_json.push(json!({"case": lc.name, "rows": lc.rows, "config": lc.cfg.name, "index_created_before_rows_on_in_memory_twin": lc.index_first_on_a, "suffix_depth": lc.depth, "suffix_alphabet": alpha.len(), "histories": n_hist, "histories_ending_disk_backed": disk, "differing": differing}));
+    }
+
+    println!("C16 histories={} statements(x2 twins)={} probes(x2)={} ok={} err={} distinct probe results={} wall={:.1}s", tot.hist, tot.stmts, tot.probes, tot.ok, tot.err, tot.outcomes.len(), t0.elapsed().as_secs_f64());
+    println!("C16 reach: {:?}", tot.reach);
+    rep.set("states", json!(tot.hist));
+    rep.set("transitions", json!(tot.stmts));
+    rep.set("traces_validated_against_impl", json!(tot.stmts));
+    rep.set("probe_queries_compared", json!(tot.probes));
+    rep.set("transition_outcomes", json!({"ok": tot.ok, "err": tot.err}));
+    rep.set("distinct_probe_results", json!(tot.outcomes.len()));
+    rep.set("alphabet", json!(alpha_full));
+    rep.set("alphabet_size", json!(alpha_full.len()));
+    rep.set("initial_states", json!(["empty table", PREFILL]));
+    rep.set("configurations", json!(cfg_json));
+    rep.set("large_table_family", json!(large_json));
+    rep.set("exhaustive", json!(exhaustive));
+    rep.set("reach", json!(tot.reach));
+    let vac: Vec<&str> = ["spill_to_disk", "disk_backed_op", "index_scan", "index_where_skip"].iter().copied().filter(|k| tot.reach.get(k).copied().unwrap_or(0) == 0).collect();
+    rep.set("vacuous_mechanisms", json!(vac));
+    if samples.is_empty() {
+        samples.push(json!({"steps": alpha_full.iter().take(2).collect::<Vec<_>>()}));
+    }
+    rep.set("samples", json!(samples));
+    rep.set(
+        "rule",
+        json!("every statement sequence up to the depth bound over the alphabet, from the empty and from the prefilled table, replayed from scratch on Database::new() and on Database::with_path_and_config(private dir, memory budget, spill policy); statement outcomes (class, count) at every step and the bags of the probe battery after the last step must agree; a differing history is reported and not extended; each history runs in a worker process with a deadline (a statement that never returns is a difference)"),
+    );
+    rep.assume("a history is a replay from the empty database (disk-backed indexes are shared between clones); the probe battery is derived from the table content of the in-memory twin and compared as bags");
+    rep.finish()
+}
+
+fn replay_large(case: &Value, name: &str) -> i32 {
+    let thorough = case["tier"].as_str() == Some("thorough");
+    let Some(lc) = large_cases(true).into_iter().find(|l| l.name == name) else {
+        eprintln!("MACHINERY-ERROR unknown large case {}", name);
+        return 2;
+    };
+    let fill = large_fill(&lc);
+    let mut setup_a: Vec<String> = PRELUDE.iter().map(|s| s.to_string()).collect();
+    let mut setup_b = setup_a.clone();
+    if lc.index_first_on_a {
+        setup_a.push(LARGE_INDEX.to_string());
+        setup_a.extend(fill.iter().cloned());
+        setup_b.extend(fill.iter().cloned());
+        setup_b.push(LARGE_INDEX.to_string());
+    } else {
+        setup_a.extend(fill.iter().cloned());
+        setup_b.extend(fill.iter().cloned());
+    }
+    let ops: Vec<String> = case["steps"].as_array().map(|a| a.iter().filter_map(|x| x.as_str().map(|s| s.to_string())).collect()).unwrap_or_default();
+    let base = scratch_base();
+    let _ = std::fs::create_dir_all(&base);
+    let mut st = HStats::default();
+    let mut log = vec![];
+    let r = run_twins(&lc.cfg, &base, thorough, &setup_a, &setup_b, &ops, false, &large_lits(lc.rows), &mut st, Some(&mut log));
+    let _ = std::fs::remove_dir_all(&base);
+    println!("large case {}: {} rows, configuration {} (memory_budget {}, {}); index created {} the rows on the in-memory twin", lc.name, lc.rows, lc.cfg.name, lc.cfg.budget, policy_name(lc.cfg.policy), if lc.index_first_on_a { "before" } else { "after" });
+    for l in log {
+        println!("{}", vcore::util::trunc(&l, 400));
+    }
+    match r {
+        Err(e) => {
+            eprintln!("MACHINERY-ERROR {}", e);
+            2
+        }
+        Ok(None) => {
+            println!("no difference between the twins");
+            0
+        }
+        Ok(Some(d)) => {
+            println!("DIFFERENCE at step {}: `{}`\n  in-memory indexes : {}\n  other side        : {}", d.step, d.sql, vcore::util::trunc(&d.a, 300), vcore::util::trunc(&d.b, 300));
+            1
+        }
+    }
+}
+
+pub fn replay(case: &Value) -> i32 {
+    if let Some(n) = case["large_case"].as_str() {
+        return replay_large(case, n);
+    }
+    let Some(cfg) = case["config"]["name"].as_str().and_then(cfg_by_name) else {
+        eprintln!("MACHINERY-ERROR unknown configuration");
+        return 2;
+    };
+    let init: Vec<String> = case["init"].as_array().map(|a| a.iter().filter_map(|x| x.as_str().map(|s| s.to_string())).collect()).unwrap_or_default();
+    let init_refs: Vec<&str> = init.iter().map(|s| s.as_str()).collect();
+    let ops: Vec<String> = case["steps"].as_array().map(|a| a.iter().filter_map(|x| x.as_str().map(|s| s.to_string())).collect()).unwrap_or_default();
+    let base = scratch_base();
+    let _ = std::fs::create_dir_all(&base);
+    let mut st = HStats::default();
+    let mut log = vec![];
+    let r = run_history(&cfg, &base, case["tier"].as_str() == Some("thorough"), &init_refs, &ops, true, &mut st, Some(&mut log));
+    let _ = std::fs::remove_dir_all(&base);
+    println!("configuration: {} (memory_budget {}, {})", cfg.name, cfg.budget, policy_name(cfg.policy));
+    for s in PRELUDE.iter().chain(init_refs.iter()) {
+        println!("init: {}", s);
+    }
+    for l in log {
+        println!("{}", l);
+    }
+    match r {
+        Err(e) => {
+            eprintln!("MACHINERY-ERROR {}", e);
+            2
+        }
+        Ok(None) => {
+            println!("no difference between the twins");
+            0
+        }
+        Ok(Some(d)) => {
+            println!("DIFFERENCE at step {}: `{}`\n  in-memory indexes : {}\n  spill configuration: {}", d.step, d.sql, d.a, d.b);
+            1
+        }
+    }
 }
